@@ -21,7 +21,7 @@ prop("C01",
      level_text=("Runtime monitoring: every generated ADF goes through the real parser and all five ways of obtaining a "
                  "grounded interpretation (native, biodivine, hybrid with/without pre-grounding, bridge) under all three "
                  "sort modes; each answer is compared with the least fixpoint computed by enumeration (n<=8) or by the "
-                 "support-bounded operator (30-60 statements). Bounded progress via the tick hook."),
+                 "support-bounded operator (30-60 statements). Bounded progress via the tick hook. A command-line leg drives the binary with exactly this property's flags in all three library modes and judges the printed lines with the same oracle."),
      level_note=ORACLE_NOTE,
      rule=("cases = generated ADFs (11 structured families + random, hostile labels, random fact order/layout); "
            "non-trivial = grounded needs >=2 propagation rounds or mixes decided and undecided statements, or is a "
@@ -37,7 +37,7 @@ prop("C02",
      technique="differential runtime monitor: complete-model multisets vs brute-force fixpoint enumeration over 3^n",
      level_text=("Runtime monitoring: complete models returned by native, biodivine, hybrid(+/-) and bridged back-ends "
                  "are compared as multisets with all fixpoints of the three-valued operator found by enumerating 3^n "
-                 "interpretations; the first returned model must be the grounded interpretation."),
+                 "interpretations; the first returned model must be the grounded interpretation. Mid-size frameworks (12-60 statements, up to ten left undecided by grounding) are judged by the same definitions, evaluated among the refinements of the grounded interpretation (support-bounded operator, validated against enumeration). A command-line leg drives the binary with exactly this property's flags in all three library modes and judges the printed lines with the same oracle."),
      level_note=ORACLE_NOTE,
      rule=("cases = generated ADFs as in C01 (n<=6 quick, <=8 thorough); non-trivial = ADF has >=2 complete models; "
            "distinct by structure hash"),
@@ -52,7 +52,7 @@ prop("C03",
      technique="differential runtime monitor: 17 stable-model procedures vs definitional reduct-based oracle",
      level_text=("Runtime monitoring: plain, pre-filtered and both rewriting variants of the stable enumeration on every "
                  "back-end (17 procedure/back-end combinations) are compared as multisets with the stable models by "
-                 "definition (two-valued models whose reduct's grounded interpretation re-derives every true statement)."),
+                 "definition (two-valued models whose reduct's grounded interpretation re-derives every true statement). Mid-size frameworks (12-60 statements, up to ten left undecided by grounding) are judged by the same definitions, evaluated among the refinements of the grounded interpretation (support-bounded operator, validated against enumeration). A command-line leg drives the binary with exactly this property's flags in all three library modes and judges the printed lines with the same oracle."),
      level_note=ORACLE_NOTE,
      rule=("cases = generated ADFs as in C01; non-trivial = ADF has a two-valued model that is not stable, or >=2 "
            "stable models; distinct by structure hash"),
@@ -67,7 +67,7 @@ prop("C04",
      technique="differential runtime monitor + branch-coverage events from the search hook",
      level_text=("Runtime monitoring: both counting-guided procedures on native, hybrid(+/-) and bridged objects are "
                  "compared as multisets with the definitional stable models; hook events show which branch kinds and "
-                 "inconsistent cubes in non-final position were exercised."),
+                 "inconsistent cubes in non-final position were exercised. Mid-size frameworks (12-60 statements, up to ten left undecided by grounding) are judged by the same definitions, evaluated among the refinements of the grounded interpretation (support-bounded operator, validated against enumeration). A command-line leg drives the binary with exactly this property's flags in all three library modes and judges the printed lines with the same oracle."),
      level_note=ORACLE_NOTE,
      rule=("cases = generated ADFs as in C01 plus fixed regression witnesses; non-trivial = the search made >=2 "
            "branching decisions and skipped >=1 inconsistent cube that was not the last cube; distinct by structure hash"),
@@ -86,7 +86,7 @@ prop("C05",
                  "consumer loop with a real solver thread must end, trace invariants (no choice on a decided statement, "
                  "stacks in lock-step, accepted = delivered), termination decided by a logical loop-iteration budget "
                  ">=50x above the largest correct run (13x for the wide frameworks, whose correct worst case is exactly "
-                 "3*2^n iterations)."),
+                 "3*2^n iterations). Mid-size frameworks (12-60 statements, up to ten left undecided by grounding) are judged by the same definitions, evaluated among the refinements of the grounded interpretation (support-bounded operator, validated against enumeration). A command-line leg drives the binary with exactly this property's flags in all three library modes and judges the printed lines with the same oracle."),
      level_note=ORACLE_NOTE + " Termination is restated as bounded progress in loop iterations.",
      rule=("cases = generated ADFs (n<=5 quick, <=7 thorough) x 8 heuristics x modes x back-ends; non-trivial = some "
            "search on the ADF backtracked, learned >=1 nogood and ran >=3 loop iterations; distinct by structure hash"),
@@ -104,7 +104,7 @@ prop("C06",
                  "after every operation (half of the histories) or every 8 operations the node table is audited: constants "
                  "in place, no equal branches, children earlier and testing later variables, no duplicate nodes, all "
                  "entries denote pairwise different functions (truth tables), unique table = inverse of node table; every "
-                 "operation result is compared handle-wise with all earlier handles (same handle iff same function)."),
+                 "operation result is compared handle-wise with all earlier handles (same handle iff same function). Start stores include replicas filled through bounded channels by a producer thread."),
      level_note=ORACLE_NOTE + " Truth tables bound the store to <=11 variables.",
      rule=("cases = operation histories (10-120 operations, 1-11 variables); non-trivial = history reached >=8 nodes and "
            ">=6 distinct functions; distinct by hash of the operation transcript"),
@@ -133,7 +133,7 @@ prop("C13",
                  "counted on the node table, naive (and, where documented, memoised) model counts in exact ratio to "
                  "satisfying/falsifying assignments and agreeing with each other, depth vs longest path, dependency set vs "
                  "essential variables, both impact measures, path cubes pairwise disjoint and covering exactly the "
-                 "(counter-)models where the goal variable has the goal value; more_models on all pairs below 64x64."),
+                 "(counter-)models where the goal variable has the goal value; more_models on all pairs below 64x64. Depth and memoised model counts are also asked cold, before any counting query has filled the count cache."),
      level_note=ORACLE_NOTE + " Diagram depth < 60 (counts are machine words).",
      rule=("cases = store histories; every distinct handle of a history is queried; non-trivial as in C06; "
            "distinct by transcript hash"),
@@ -197,7 +197,7 @@ prop("C08",
                  "the public AST of every condition is compared structurally (labels byte-identical) with what was written, "
                  "the dictionary with first-declaration order, compiled handles with the written functions. Negatives are "
                  "constructed by single edits (bracket deleted/inserted outside quotes, terminator dropped, arity changed, "
-                 "trailing garbage, truncation, leading blank, unknown predicate, empty) and must be rejected without a panic."),
+                 "trailing garbage, truncation, leading blank, unknown predicate, empty) and must be rejected without a panic. Followed positives also pass through one parser object that is re-sorted between instantiations."),
      level_note=ORACLE_NOTE + " A mutant counts as negative only if the independent recogniser rejects it (and, for bracket edits, brackets are unbalanced by construction).",
      rule=("cases = generated positive files, each followed by ~13 negatives derived from it; non-trivial = positive using "
            ">=3 connective kinds and >=1 special label, or a rejected negative that differs from a valid file by one edit; "
@@ -229,7 +229,7 @@ prop("C10",
                  "(grounded on 5 back-ends, complete, stable incl. prefilter, rewriting, both counting searches, nogood "
                  "search, two-valued) and compared as label->value maps across variants and with the definitional oracle; "
                  "printed interpretations are compared with constructed lines, lexi order must be byte-wise. Large instances "
-                 "(30-60 statements) are compared metamorphically plus grounded vs the support-bounded oracle."),
+                 "(30-60 statements) are compared metamorphically plus grounded vs the support-bounded oracle. Large and mid-size variants are also compared with the definitional complete / stable / two-valued models (refinements of the grounded interpretation). A command-line leg drives the binary with exactly this property's flags in all three library modes and judges the printed lines with the same oracle."),
      level_note=ORACLE_NOTE,
      rule=("cases = base ADFs with 3-5 variants each; non-trivial = >=3 variants with pairwise different variable orders "
            "and >=2 complete models, or a large instance; distinct by structure hash"),
@@ -258,7 +258,7 @@ prop("C14",
      level_text=("Runtime monitoring: at a random point of a C11-style call history the object is exported to JSON and "
                  "imported (+ repair step) and rebuilt from node list / ordering / root handles through the same string "
                  "encoding the web service uses; node tables, roots and names must be identical, the private tables of the "
-                 "copies pass the audit, and the copies must answer every later call like the original and the oracle."),
+                 "copies pass the audit, and the copies must answer every later call like the original and the oracle. Big round trips are also judged on complete / stable / nogood / counting answers of both copies against the definition."),
      level_note=ORACLE_NOTE + " CLI export/import legs are part of the CLI checks.",
      rule=("cases = (ADF, call sequence, export point); non-trivial as in C11; distinct by hash of structure and sequence"),
      quick=dict(cases=3000, args={}),
@@ -290,7 +290,7 @@ prop("C15",
                  "the complete models (grounded first), the remaining lines as a multiset must contain every section the "
                  "mode wires, built from the oracle's interpretations, labels and expected statement order. Malformed files "
                  "(syntax errors, undeclared statements) must exit non-zero without printing an interpretation. Thorough: "
-                 "second CLI feature build and a valgrind memcheck sample."),
+                 "second CLI feature build and a valgrind memcheck sample. Mid-size files (12-60 statements) with every flag; wide files up to 2048 two-valued models in the quick tier; a second leg drives the dev-profile binary with debug / trace logging always on."),
      level_note=ORACLE_NOTE + " Alphanumeric statement order is taken from the library's own sort (C10 covers order independence).",
      rule=("cases = generated files, 3 invocations (one per library mode) plus malformed variants each; non-trivial = "
            "invocation with >=2 semantics flags printing >=2 lines, or a rejected malformed file; distinct by structure/text hash"),
@@ -311,7 +311,7 @@ prop("C16",
                  "graph = exactly the nodes reachable from the labelled roots and walking lo/hi edges evaluates the "
                  "statement's condition for every assignment extending the shown model, malformed code ends as Error and "
                  "is unusable, a task with a stored result is never listed as running; a second phase injects task delays "
-                 "(hook H7) and DB latency and must observe running tasks."),
+                 "(hook H7) and DB latency and must observe running tasks. Every fifth code is mid-size (12-30 statements); solve requests reset by the client during the database lookup; a task listed as running is judged against the idleness of the server process (progress, not a deadline); RUST_LOG of the server varies per shard."),
      level_note=WEB_NOTE + " 'Eventually stored' is decided as bounded progress (ended-but-unstored for 1500 polls).",
      rule=("cases = submitted codes (n<=5 quick, <=6 thorough; 1 in 6 malformed) with the full request history; "
            "non-trivial = code with >=2 complete models or a malformed code; distinct by code hash"),
@@ -329,7 +329,7 @@ prop("C17",
                  "equal the union of the user models (owner, name, code of every problem; accounts; argon2 hashes, no "
                  "repeated hash, no password token in any DB command); unauthenticated requests must get 401 and no data; "
                  "logins with stale/wrong passwords and on temporary accounts must fail. Random think times, task delays "
-                 "(H7) and DB latency vary the interleavings; a dedicated probe replays the account-name re-use history."),
+                 "(H7) and DB latency vary the interleavings; a dedicated probe replays the account-name re-use history. RUST_LOG of the server process varies per shard (unset, info, warn, debug)."),
      level_note=WEB_NOTE + " Interleavings are those produced by threads, think times and injected delays, not an enumeration.",
      rule=("cases = concurrent histories (2-3 users x 24-40 steps); non-trivial = >=2 users were active and >=10 requests "
            "were made; distinct by hash of the (user, operation, status) sequence; evidence counts distinct DB command interleavings"),
